@@ -388,8 +388,6 @@ def export_sm_element(el):
                 r.update(k="unsupported", unsupported="ref form")
                 return r
         r["internal"] = "internal" in (el.info or {})
-        if any(a[0] == "activated" for a in r["args"]):
-            r["unsupported"] = "activation"
         if r["name"] in ("FinishFlow", "StopFlow"):
             r["unsupported"] = "explicit FinishFlow/StopFlow"
         bad = [a for a in r["args"] + r["margs"] if a[1]["k"] == "unsupported"]
@@ -397,8 +395,6 @@ def export_sm_element(el):
             r["unsupported"] = "arg expr: " + bad[0][1]["v"]
     elif isinstance(el, ast.Label):
         r.update(k="label", label=el.name)
-        if el.name == "start_new_flow_instance":
-            r["unsupported"] = "start_new_flow_instance"
     elif isinstance(el, ast.Goto):
         r.update(k="goto", label=el.label, expr=classify_expr(el.expression))
     elif isinstance(el, ast.ForkHead):
